@@ -389,3 +389,36 @@ PROP.obligation('C01.varint', canaries=[
     mut.cmpop('encoding', 'int_to_varbyteint', 'inp <= 65535', ast.Lt, 'CompactSize inside preimages: 0xffff non-canonical'),
 ])(c18.canonical)
 PROP.obligation('C01.prefix-total')(c18.prefix_total)
+
+
+@PROP.obligation('C01.per-input-keys', canaries=[
+    mut.replace_expr('transactions', 'Transaction.sign', 'self.inputs[tid].compressed', 'self.inputs[tids[0]].compressed', 'raw keys converted with the compression flag of the first input'),
+])
+def per_input_keys(ctx):
+    """Transaction.sign: everything that enters the digest of input i is taken from input i. Inside the per-input loop every subscript
+    of self.inputs uses the loop variable, and key objects built from raw key material (Key(k, compressed=...)) are built inside that
+    loop with the compression flag of the input being signed: for an input without keys the public-key form decides the script code."""
+    q = 'transactions:Transaction.sign'
+    fn = ctx.repo.func(q)
+    loops = [n for n in walk_no_nested(fn) if isinstance(n, ast.For) and isinstance(n.target, ast.Name) and unparse(n.iter) == 'tids']
+    if len(loops) != 1:
+        ctx.undecided('Transaction.sign: per-input loop not found')
+    var = loops[0].target.id
+    inside = set(id(x) for x in ast.walk(loops[0]))
+    n = 0
+    for sub in ast.walk(fn):
+        if isinstance(sub, ast.Subscript) and unparse(sub.value) == 'self.inputs':
+            n += 1
+            idx = unparse(sub.slice)
+            if id(sub) in inside:
+                ctx.require(idx == var, q, 'inside the per-input loop self.inputs[%s] is used instead of self.inputs[%s]' % (idx, var), sub, 'an input is signed with data of another input')
+            else:
+                ctx.violate(q, 'self.inputs[%s] is read outside the per-input loop: its value is shared by all inputs' % idx, sub,
+                            'keys converted with the compression flag of one input sign another input over the wrong script code')
+    ctx.floor(n, 8, 'subscripts of self.inputs in Transaction.sign')
+    conv = [c for c in ast.walk(fn) if isinstance(c, ast.Call) and unparse(c.func) == 'Key' and any(k.arg == 'compressed' for k in c.keywords)]
+    ctx.saw('%d subscripts of self.inputs, all indexed by `%s`; raw-key conversions: %s' % (n, var, [unparse(c)[:70] for c in conv]))
+    if not conv:
+        ctx.unsure('%s: conversion of raw keys not found' % q)
+    for c in conv:
+        ctx.require(id(c) in inside, q, 'raw keys are converted to Key objects outside the per-input loop', c)
